@@ -426,7 +426,12 @@ fn main() {
         }
         return;
     }
-    panic::set_hook(Box::new(|_| {}));
+    // LEXVERIF_PANICMSG=1: print each panic's location and message to stderr (diagnosis only)
+    if std::env::var("LEXVERIF_PANICMSG").is_ok() {
+        panic::set_hook(Box::new(|info| eprintln!("{}", info)));
+    } else {
+        panic::set_hook(Box::new(|_| {}));
+    }
     let stdin = io::stdin();
     let stdout = io::stdout();
     let mut out = io::BufWriter::with_capacity(1 << 16, stdout.lock());
